@@ -228,7 +228,11 @@ func ruleDeleg(e *Env, rule, pkg string) {
 				for _, b := range f.Blocks {
 					for _, in := range b.Instrs {
 						bo, ok := in.(*ssa.BinOp)
-						if !ok || (bo.Op != token.EQL && bo.Op != token.NEQ) {
+						if !ok {
+							continue
+						}
+						ordering := bo.Op == token.LSS || bo.Op == token.LEQ || bo.Op == token.GTR || bo.Op == token.GEQ
+						if bo.Op != token.EQL && bo.Op != token.NEQ && !ordering {
 							continue
 						}
 						for _, side := range [][2]ssa.Value{{bo.X, bo.Y}, {bo.Y, bo.X}} {
@@ -237,12 +241,20 @@ func ruleDeleg(e *Env, rule, pkg string) {
 							if !isK || k.Value == nil || k.Value.Kind() != constant.Int || !isB || bt.Kind() != types.Int32 {
 								continue
 							}
-							r, exact := constant.Int64Val(k.Value)
-							if _, documented := spec.verbs[rune(r)]; !exact || documented || seenVerb[r] || r < 0x20 || r > 0x7e {
-								continue
+							r0, exact := constant.Int64Val(k.Value)
+							// a range test (`verb < 'a'`) cuts the verbs in two: the constant and its two neighbours stand for
+							// the verbs on either side (the symbolic other verb is greater than every constant only)
+							around := []int64{r0}
+							if ordering {
+								around = []int64{r0 - 1, r0, r0 + 1}
 							}
-							seenVerb[r] = true
-							cases = append(cases, vc{"%" + string(rune(r)) + " (singled out, not documented)", pred.Const{V: constant.MakeInt64(r)}, spec.defaultVerb})
+							for _, r := range around {
+								if _, documented := spec.verbs[rune(r)]; !exact || documented || seenVerb[r] || r < 0x20 || r > 0x7e {
+									continue
+								}
+								seenVerb[r] = true
+								cases = append(cases, vc{"%" + string(rune(r)) + " (singled out, not documented)", pred.Const{V: constant.MakeInt64(r)}, spec.defaultVerb})
+							}
 						}
 					}
 				}
